@@ -1,7 +1,7 @@
 #!/usr/bin/env python3
 """Run the current checks again against a kept seeded change (after a strengthening).
 
-  recheck.py <name> [--props C04,C08] [--tier quick|thorough] [--label text]
+  recheck.py <name> [--props C04,C08] [--tier quick|thorough] [--label text] [--dry]   (--dry: do not record the run)
 
 The patch of /verif/seeded/<name>/ is applied to a scratch worktree of /repo (removed afterwards; /repo itself
 is not touched, so this can run next to other checks), the checks are built against it through VERIF_REPO, and
@@ -21,7 +21,8 @@ def sh(cmd, cwd, timeout=7200, env=None):
 def main():
     name = sys.argv[1]
     props, tier, label = None, "quick", "after strengthening"
-    a = sys.argv[2:]
+    dry = "--dry" in sys.argv
+    a = [x for x in sys.argv[2:] if x != "--dry"]
     while a:
         if a[0] == "--props":
             props = a[1].split(",")
@@ -60,6 +61,8 @@ def main():
         shutil.rmtree(wt, ignore_errors=True)
         shutil.rmtree(scratch, ignore_errors=True)
         shutil.rmtree(os.path.join(ROOT, ".work", "alt", hashlib.sha1(wt.encode()).hexdigest()[:12]), ignore_errors=True)
+    if dry:
+        return 0
     runs = meta.get("check_runs", {})
     for pid, r in results.items():
         runs.setdefault(pid, []).append(r)
